@@ -157,7 +157,12 @@ def main(argv):
     import_repo()
     prop = get_prop(pid)
     _PROP = prop
-    ctx = Ctx(tier, seed)
+    from . import fingerprint
+
+    moved = fingerprint.changed_files(pid)
+    ctx = Ctx(tier, seed, escalated=bool(moved))
+    if moved:
+        print(f"note: anchored source changed since the model was last validated ({', '.join(moved)}): escalating the search")
 
     # 1. proofs ------------------------------------------------------------------------------
     ok, log = lean.build(["awdriver"])
@@ -350,6 +355,8 @@ def main(argv):
             "oracle_failures_model": len(model_failures),
             "known_finding_hits": {k: True for k in known_hits},
             "directed_search_cases": searched,
+            "anchored_files_changed": moved,
+            "escalated": bool(ctx.escalated),
         },
         "assumptions": list(prop.ASSUMPTIONS),
         "wall_s": round(wall, 2),
